@@ -488,8 +488,11 @@ def main():
         "wall_s": round(wall, 2),
         "violations": len(violations),
     }
-    os.makedirs(os.path.join(OUT, "evidence"), exist_ok=True)
-    with open(os.path.join(OUT, "evidence", prop + ".json"), "w") as f:
+    # debugging runs (--skip-proofs, or against a scratch worktree via VERIF_REPO) must not replace the
+    # evidence of the real check
+    evdir = os.path.join(OUT, "evidence") if (not args.skip_proofs and REPO == "/repo") or OUT != ROOT else os.path.join(BUILD, "scratch-evidence")
+    os.makedirs(evdir, exist_ok=True)
+    with open(os.path.join(evdir, prop + ".json"), "w") as f:
         json.dump(ev, f, indent=1)
     for kid, hs in known_lines.items():
         print("KNOWN-FINDING: property=%s %s %s (%d cases, e.g. %s)" % (prop, kid, known_ids[kid]["what"], len(hs), hs[0]["case"][:160]))
